@@ -720,6 +720,11 @@ class C10Executor(Executor):
 
     def symbolic_for(self, s, st, it):
         spec = None
+        if isinstance(it, VExt) and it.sort == "TarFile":
+            # ASSUMED (tarfile documentation): iterating a TarFile yields the members getmembers() lists, in the same order; which
+            # streams the container was opened on (seekable `r:` vs one-pass `r|`) is judged by the clauses about the open mode
+            self.exc_any(st.fork(), "TarFile.getmembers()")
+            it = tar_members_seq(it)
         if self.contract is not None:
             for key, sp in self.contract.loops.items():
                 if isinstance(key, tuple) and key[0] == "role" and sp.match(self, st, it, s):
@@ -2023,6 +2028,10 @@ def m_pathcounts_index(ex, st, obj, args, kwargs, node):
     return m_pathcounts_get(ex, st, obj, args, kwargs, node)
 
 
+def tar_members_seq(o):
+    return VSeq(TN(o.t), lambda i: VExt("TarInfo", TMEM(o.t, i)), "TarInfo", tag=("tarmembers", o.t))
+
+
 def install_members(reg):
     reg.ext_models[("new", "collections.Counter")] = new_counter
     reg.method_models[("seq", "startswith")] = m_seq_startswith
@@ -2078,7 +2087,7 @@ def install_members(reg):
 
     def tar_getmembers(ex, st, o, a, k, n):
         ex.exc_any(st.fork(), "TarFile.getmembers()")
-        return [(st, VSeq(TN(o.t), lambda i: VExt("TarInfo", TMEM(o.t, i)), "TarInfo", tag=("tarmembers", o.t)))]
+        return [(st, tar_members_seq(o))]
     reg.method_models[("TarFile", "getmembers")] = tar_getmembers
     reg.attr_models[("TarInfo", "isreg")] = lambda ex, st, o: VFunc("bound", o, "isreg")
     reg.method_models[("TarInfo", "isreg")] = lambda ex, st, o, a, k, n: [(st, VBool(TISREG(o.t)))]
